@@ -36,13 +36,6 @@ theorem unsafe_accounts_wellformed :
 /-- The sites of the files C17 is about (parser.rs, chunker.rs, encoding.rs). -/
 theorem c17_sites_covered : uncovered (Xt.Generated.sites.filter isC17) covered = [] := by decide
 
-/-- The account is tight in the other direction too where it matters: no
-account is given for a key the sources do not have (a stale entry would
-silently accept the site's return).  Removing a site never breaks
-`sites_covered`; it breaks this, as a reminder to delete the account. -/
-theorem no_stale_accounts :
-    (covered.filter fun c => !Xt.Generated.sites.any fun e => sameKey e c) = [] := by decide
-
 /-- Non-vacuity: an unaccounted site is detected — one more `unwrap` in
 `Chunker::next` than today, or an index expression in `try_read_length` (where
 today there is a checked `.get(..)`). -/
@@ -59,6 +52,5 @@ example : uncovered [("src/yaml/chunker/parser.rs", "Parser::new", "panic", 1)] 
 #print axioms unsafe_sites_covered
 #print axioms unsafe_accounts_wellformed
 #print axioms c17_sites_covered
-#print axioms no_stale_accounts
 
 end Xt.Props.C04Sites
